@@ -140,6 +140,20 @@ def datatype_contracts(tier, seed):
                         v[...] = 7
                         check(f'{tag}:component[{comp}]:writable_view', np.all(np.asarray(a)[i] == 7))
                     a[...] = a0
+                    # a non-contiguous view that keeps the component axis still exposes writable component views of the SAME buffer
+                    if a.ndim >= 3:
+                        views = [a[..., 1:], a[..., ::2]] + ([a[:, 1:, 1:]] if a.ndim >= 3 else [])
+                    else:
+                        views = [a[..., 1:], a[..., ::2]]
+                    for vi, S in enumerate(views):
+                        if S.shape[0] != len(cls.components) or S.size == 0:
+                            continue
+                        comp = cls.components[-1]
+                        v = getattr(S, comp)
+                        check(f'{tag}:component_of_view#{vi}:shares_the_buffer', np.shares_memory(v, a))
+                        v[...] = -3
+                        check(f'{tag}:component_of_view#{vi}:write_through', np.all(np.asarray(S)[len(cls.components) - 1] == -3))
+                        a[...] = a0
                 # slicing keeps the type and views the buffer
                 s = a[...]
                 check(f'{tag}:slice:view', np.shares_memory(s, a))
